@@ -690,3 +690,502 @@ Section NW.
     rewrite E, Ep. rewrite fold_expected by (simpl; auto). reflexivity.
   Qed.
 End NW.
+
+(* ================================================================== Gaussian94 round trip *)
+Definition dotword (c : ascii) : bool := is_word c || (code c =? 46).
+Lemma dotword_nospace c : dotword c = true -> is_space c = false.
+Proof. all_chars c. Qed.
+Lemma dotword_printable c : dotword c = true -> printable c = true.
+Proof. all_chars c. Qed.
+Lemma word_notdot c : is_word c = true -> (code c =? 46) = false.
+Proof. all_chars c. Qed.
+Lemma word_dotword c : is_word c = true -> dotword c = true.
+Proof. unfold dotword. intros ->. reflexivity. Qed.
+
+Lemma ww_tail_dotword s : ww_tail s = true -> forall_s dotword s = true.
+Proof.
+  induction s as [|c r IH]; simpl; auto. destruct (code c =? 46) eqn:E.
+  - intros H. unfold dotword at 1. rewrite E, orb_true_r. simpl.
+    unfold pure_word in H. apply andb_true_iff in H as [_ H].
+    eapply forall_s_imp; [|exact H]. apply word_dotword.
+  - intros H. apply andb_true_iff in H as [H1 H2]. rewrite (word_dotword c H1). simpl. auto.
+Qed.
+Lemma is_ww_dotword s : is_ww s = true -> nonempty s = true /\ forall_s dotword s = true.
+Proof.
+  destruct s as [|c r]; simpl; [discriminate|]. intros H. apply andb_true_iff in H as [H1 H2].
+  rewrite (word_dotword c H1), (ww_tail_dotword r H2). auto.
+Qed.
+Lemma is_ww_tok s : is_ww s = true -> tok_ok s = true.
+Proof.
+  intros H. destruct (is_ww_dotword s H) as [H1 H2]. unfold tok_ok. rewrite H1. simpl.
+  eapply forall_s_imp; [|exact H2]. intros c Hc. rewrite (dotword_nospace c Hc). reflexivity.
+Qed.
+Lemma is_ww_printable s : is_ww s = true -> forall_s printable s = true.
+Proof.
+  intros H. destruct (is_ww_dotword s H) as [_ H2]. eapply forall_s_imp; [|exact H2]. apply dotword_printable.
+Qed.
+Lemma words_not_ww_tail s : forall_s is_word s = true -> ww_tail s = false.
+Proof.
+  induction s as [|c r IH]; simpl; auto. intros H. apply andb_true_iff in H as [H1 H2].
+  rewrite (word_notdot c H1), (IH H2), andb_false_r. reflexivity.
+Qed.
+Lemma pure_word_not_ww s : pure_word s = true -> is_ww s = false.
+Proof.
+  unfold pure_word. intros H. apply andb_true_iff in H as [_ H]. destruct s as [|c r]; simpl in *; auto.
+  apply andb_true_iff in H as [H1 H2]. rewrite (words_not_ww_tail r H2), andb_false_r. reflexivity.
+Qed.
+
+Lemma ssegs_nosh final B rest :
+  Forall (fun l => sheader_gbs l = None) B ->
+  ssegs final (B ++ rest) = (B ++ fst (ssegs final rest), snd (ssegs final rest)).
+Proof.
+  induction 1 as [|l B Hl HB IH]; simpl.
+  - destruct (ssegs final rest); reflexivity.
+  - rewrite IH, Hl. reflexivity.
+Qed.
+Lemma ssegs_sh final l g r :
+  sheader_gbs l = Some g -> existsb (fun x => negb (is_blank x)) r = true ->
+  ssegs final (l :: r) = ([], (g, fst (ssegs final r)) :: snd (ssegs final r)).
+Proof.
+  intros Hl Hex. simpl. rewrite Hl, Hex, orb_true_r. destruct (ssegs final r); reflexivity.
+Qed.
+Lemma ssegs_block final F l g B rest :
+  Forall (fun l => sheader_gbs l = None) F ->
+  sheader_gbs l = Some g ->
+  Forall (fun l => sheader_gbs l = None) B ->
+  existsb (fun x => negb (is_blank x)) B = true ->
+  ssegs final ((F ++ [l] ++ B) ++ rest)
+  = (F, (g, B ++ fst (ssegs final rest)) :: snd (ssegs final rest)).
+Proof.
+  intros HF Hl HB Hex. rewrite <- !app_assoc. rewrite ssegs_nosh by auto.
+  change ([l] ++ B ++ rest) with (l :: (B ++ rest)).
+  rewrite (ssegs_sh final l g) by (auto; rewrite existsb_app, Hex; reflexivity).
+  rewrite ssegs_nosh by auto. cbn [fst snd]. rewrite app_nil_r. reflexivity.
+Qed.
+
+(* one unit per letter: the slices coeffs_seg[:, i:i+1] *)
+Definition units (sb : block) : list shell :=
+  map (fun lc => (fst lc, b_exps sb, [snd lc])) (combine (b_ls sb) (b_cols sb)).
+
+Lemma sliced_columns (exps : list string) (cols : list (list string)) ls : forall n,
+  n + List.length ls <= List.length cols ->
+  map (fun il : nat * nat => (snd il, exps, match nth_error cols (fst il) with
+                                            | Some col => [col]
+                                            | None => []
+                                            end)) (enumerate_from n ls)
+  = map (fun lc => (fst lc, exps, [snd lc])) (combine ls (skipn n cols)).
+Proof.
+  induction ls as [|l r IH]; intros n Hn; simpl; auto.
+  simpl in Hn. assert (n < List.length cols) as Hlt by lia.
+  destruct (nth_error cols n) as [c|] eqn:E; [|apply nth_error_None in E; lia].
+  rewrite IH by lia.
+  assert (skipn n cols = c :: skipn (S n) cols) as ->.
+  { clear -E. revert cols E. induction n; intros [|x xs] E; simpl in *; try discriminate.
+    - congruence.
+    - apply IHn; auto. }
+  reflexivity.
+Qed.
+
+Lemma block_units_sub L pos sb lo B' : wfb sb -> List.length (b_ls sb) = List.length (b_cols sb) ->
+  (forall q, Forall (fun l => row_of l = None) (lay_fill L q)) ->
+  Forall (fun l => row_of l = None) B' ->
+  block_units (letters lo (b_ls sb), print_rows L pos (block_rows sb) ++ B') = Some (units sb).
+Proof.
+  intros W Hlm Hf HB. unfold block_units.
+  destruct (letters_facts lo (b_ls sb) (wfb_l7 sb W)) as [_ ->].
+  rewrite body_rows by auto. rewrite good_rows_float by (apply block_rows_good; auto). simpl negb. cbv iota.
+  destruct (map (fun row => (hd "" row, tl row)) (block_rows sb)) eqn:E.
+  { exfalso. apply (block_rows_ne sb W). destruct (block_rows sb); [reflexivity|discriminate]. }
+  rewrite <- E. clear E.
+  rewrite block_rows_exps, block_rows_coefs.
+  rewrite transpose_rows; [| exact (wfb_k sb W) | apply wfb_cols_len; auto].
+  rewrite sliced_columns by (rewrite Hlm; lia). reflexivity.
+Qed.
+
+Lemma concat_map_single {A B} (f : A -> B) l : List.concat (map (fun x => [f x]) l) = map f l.
+Proof. induction l; simpl; congruence. Qed.
+
+Section GBS.
+  Variable close : string -> string -> bool.
+  Hypothesis close_refl : forall s, close s s = true.
+  Variable L : layout.
+  Hypothesis HL : layout_ok_gbs L.
+
+  Lemma filler_gbs_facts s : filler_gbs s = true ->
+    forall_s printable s = true /\ bad_gbs_line s = false /\
+    header_gbs s = None /\ sheader_gbs s = None /\ row_of s = None.
+  Proof.
+    unfold filler_gbs. intros H. apply andb_true_iff in H as [H H5]. apply andb_true_iff in H as [H H4].
+    apply andb_true_iff in H as [H H3]. apply andb_true_iff in H as [H1 H2].
+    apply negb_true_iff in H2.
+    destruct (header_gbs s); try discriminate. destruct (sheader_gbs s); try discriminate.
+    destruct (row_of s); try discriminate. auto.
+  Qed.
+  Lemma fillers_gbs_Forall (P : string -> Prop) fs :
+    (forall s, filler_gbs s = true -> P s) -> forallb filler_gbs fs = true -> Forall P fs.
+  Proof. intros HP H. rewrite forallb_forall in H. apply Forall_forall. auto. Qed.
+  Lemma fill_gbs (P : string -> Prop) q :
+    (forall s, filler_gbs s = true -> P s) -> Forall P (lay_fill L q).
+  Proof. intros HP. destruct HL as (_ & _ & H & _). eapply fillers_gbs_Forall; eauto. Qed.
+  Lemma fill_gbs_row q : Forall (fun l => row_of l = None) (lay_fill L q).
+  Proof. apply fill_gbs. intros s Hs. apply filler_gbs_facts in Hs. tauto. Qed.
+  Lemma fill_gbs_sh q : Forall (fun l => sheader_gbs l = None) (lay_fill L q).
+  Proof. apply fill_gbs. intros s Hs. apply filler_gbs_facts in Hs. tauto. Qed.
+  Lemma fill_gbs_hdr q : Forall (fun l => header_gbs l = None) (lay_fill L q).
+  Proof. apply fill_gbs. intros s Hs. apply filler_gbs_facts in Hs. tauto. Qed.
+  Lemma tok2_ok q : pure_word (lay_tok2 L q) = true.
+  Proof. destruct HL as (_ & _ & _ & H & _). auto. Qed.
+  Lemma tok3_ok q : is_ww (lay_tok3 L q) = true.
+  Proof. destruct HL as (_ & _ & _ & _ & H). auto. Qed.
+
+  (* the shell header line *)
+  Lemma gbs_sheader_line q lo ls t2 t3 :
+    nonempty (letters false ls) = true -> forallb (fun l => l <=? 7) ls = true ->
+    pure_word t2 = true -> is_ww t3 = true ->
+    let l := render q [letters lo ls; t2; t3] in
+    sheader_gbs l = Some (letters lo ls) /\ header_gbs l = None /\
+    forall_s printable l = true /\ bad_gbs_line l = false.
+  Proof.
+    intros Hne H7 H2 H3. cbv zeta.
+    assert (pure_word (letters lo ls) = true) as Hpw.
+    { unfold pure_word. rewrite letters_nonempty by auto. destruct (letters_facts lo ls H7) as [-> _]. reflexivity. }
+    assert (tokens (render q [letters lo ls; t2; t3]) = [letters lo ls; t2; t3]) as Ht.
+    { apply tokens_render. simpl. rewrite (pure_word_tok _ Hpw), (pure_word_tok _ H2), (is_ww_tok _ H3). reflexivity. }
+    unfold sheader_gbs, header_gbs, bad_gbs_line. rewrite Ht. simpl rev. rewrite Hpw, H2, H3. repeat split.
+    - apply printable_render. simpl.
+      rewrite (pure_word_printable _ Hpw), (pure_word_printable _ H2), (is_ww_printable _ H3). reflexivity.
+    - rewrite Hpw. reflexivity.
+  Qed.
+  (* the element header line *)
+  Lemma gbs_header_line q sym t2 :
+    wf_sym sym = true -> pure_word t2 = true ->
+    let l := render q [sym; t2] in
+    is_blank l = false /\ header_gbs l = Some sym /\ forall_s printable l = true /\ bad_gbs_line l = false.
+  Proof.
+    intros Hs H2. cbv zeta. pose proof (wf_sym_short sym Hs) as Hsh.
+    assert (tokens (render q [sym; t2]) = [sym; t2]) as Ht.
+    { apply tokens_render. simpl. rewrite (pure_word_tok _ (short_pure _ Hsh)), (pure_word_tok _ H2). reflexivity. }
+    unfold is_blank, header_gbs, bad_gbs_line. rewrite Ht. simpl rev. rewrite Hsh, H2.
+    rewrite (pure_word_not_ww _ H2). repeat split.
+    apply printable_render. simpl.
+    rewrite (pure_word_printable _ (short_pure _ Hsh)), (pure_word_printable _ H2). reflexivity.
+  Qed.
+
+  (* ---- inside one element: the shell split *)
+  Definition stail_ok (final : bool) (rest : list string) : Prop :=
+    Forall (fun l => row_of l = None) (fst (ssegs final rest)).
+
+  Definition subb (sb : block) : Prop := wfb sb /\ List.length (b_ls sb) = List.length (b_cols sb).
+
+  Lemma gbs_sub final i j m sb rest :
+    subb sb -> stail_ok final rest ->
+    chunk_units final (print_sub_gbs L i j m sb ++ rest)
+      = option_map (app (units sb)) (chunk_units final rest)
+    /\ stail_ok final (print_sub_gbs L i j m sb ++ rest).
+  Proof.
+    intros [W Hlm] Ht. unfold print_sub_gbs.
+    destruct (gbs_sheader_line (lay_pad L [i; j; m]) (lay_lower L [i; j; m]) (b_ls sb)
+                (lay_tok2 L [i; j; m]) (lay_tok3 L [i; j; m]) (wfb_ne sb W) (wfb_l7 sb W) (tok2_ok _) (tok3_ok _))
+      as (Hh & _).
+    pose proof (block_rows_good sb W) as Hg.
+    assert (Forall (fun l => sheader_gbs l = None) (print_rows L [i; j; m] (block_rows sb))) as Hnh.
+    { apply print_rows_Forall; auto. apply fill_gbs_sh. intros. apply row_sheader_gbs; auto. }
+    pose proof (print_rows_nonblank L [i; j; m] (block_rows sb) Hg (block_rows_ne sb W)) as Hex.
+    unfold chunk_units, stail_ok.
+    rewrite (ssegs_block final _ _ _ _ rest (fill_gbs_sh [i; j; m]) Hh Hnh Hex).
+    cbn [fst snd]. split; [|apply fill_gbs_row].
+    cbn [map concat_opt]. rewrite (block_units_sub L _ sb _ _ W Hlm fill_gbs_row Ht).
+    destruct (concat_opt (map block_units (snd (ssegs final rest)))); reflexivity.
+  Qed.
+
+  Lemma option_map_app_app {A} (x y : list A) o :
+    option_map (app x) (option_map (app y) o) = option_map (app (x ++ y)) o.
+  Proof. destruct o; simpl; auto. rewrite app_assoc. reflexivity. Qed.
+
+  Lemma gbs_subs final i j subs : forall m rest,
+    Forall subb subs -> stail_ok final rest ->
+    chunk_units final (mapi_from m (print_sub_gbs L i j) subs ++ rest)
+      = option_map (app (List.concat (map units subs))) (chunk_units final rest)
+    /\ stail_ok final (mapi_from m (print_sub_gbs L i j) subs ++ rest).
+  Proof.
+    induction subs as [|sb r IH]; intros m rest HW Ht; simpl.
+    - split; auto. destruct (chunk_units final rest); reflexivity.
+    - inversion HW as [|? ? Ws Wr]; subst. rewrite <- app_assoc.
+      destruct (IH (S m) rest Wr Ht) as [E1 T1].
+      destruct (gbs_sub final i j m sb _ Ws T1) as [E2 T2].
+      rewrite E2, E1, option_map_app_app. auto.
+  Qed.
+
+  Definition U (b : block) : list shell := List.concat (map units (gbs_subblocks b)).
+
+  Lemma subblocks_subb b : wfb b -> Forall subb (gbs_subblocks b).
+  Proof.
+    intros W. unfold gbs_subblocks. pose proof (wfb_ne b W) as Hne. pose proof (wfb_lm b W) as Hlm.
+    destruct (b_ls b) as [|l [|l2 r]] eqn:E; simpl in Hne; try discriminate.
+    - apply Forall_forall. intros sb Hsb. apply in_map_iff in Hsb as [col [<- Hc]].
+      pose proof (wfb_cols b W) as HC. rewrite forallb_forall in HC. specialize (HC col Hc).
+      apply andb_true_iff in HC as [HC1 HC2].
+      split; [|reflexivity]. constructor; simpl; auto.
+      + pose proof (wfb_l7 b W) as H7. rewrite E in H7. exact H7.
+      + exact (wfb_k b W).
+      + exact (wfb_exps b W).
+      + rewrite HC1, HC2. reflexivity.
+    - constructor; [|constructor]. split; auto. destruct Hlm as [Hlm|Hlm]; simpl in Hlm; [lia|].
+      rewrite E. exact Hlm.
+  Qed.
+
+  Lemma gbs_blocks final i bs : forall j rest,
+    Forall wfb bs -> stail_ok final rest ->
+    chunk_units final (mapi_from j (print_block_gbs L i) bs ++ rest)
+      = option_map (app (List.concat (map U bs))) (chunk_units final rest)
+    /\ stail_ok final (mapi_from j (print_block_gbs L i) bs ++ rest).
+  Proof.
+    induction bs as [|b r IH]; intros j rest HW Ht; simpl.
+    - split; auto. destruct (chunk_units final rest); reflexivity.
+    - inversion HW as [|? ? Wb Wr]; subst. rewrite <- app_assoc.
+      destruct (IH (S j) rest Wr Ht) as [E1 T1]. unfold print_block_gbs at 1 3.
+      destruct (gbs_subs final i j (gbs_subblocks b) 0 _ (subblocks_subb b Wb) T1) as [E2 T2].
+      rewrite E2, E1, option_map_app_app. auto.
+  Qed.
+
+  Lemma chunk_units_fillers final T :
+    Forall (fun l => sheader_gbs l = None) T -> Forall (fun l => row_of l = None) T ->
+    chunk_units final T = Some [] /\ stail_ok final T.
+  Proof.
+    intros H1 H2. unfold chunk_units, stail_ok. rewrite <- (app_nil_r T). rewrite ssegs_nosh by auto.
+    simpl. rewrite app_nil_r. auto.
+  Qed.
+
+  (* ---- the merge rule *)
+  Definition nf_after (acc S : list shell) : Prop :=
+    no_fuse close (match rev acc with x :: _ => x :: S | [] => S end) = true.
+
+  Lemma push_nofuse acc u S :
+    nf_after acc (u :: S) -> push close acc u = acc ++ [u] /\ nf_after (acc ++ [u]) S.
+  Proof.
+    unfold nf_after, push. intros H. rewrite rev_app_distr. change (rev [u]) with [u]. cbn [app].
+    destruct (rev acc) as [|x init].
+    - split; auto.
+    - cbn [no_fuse] in H. apply andb_true_iff in H as [H1 H2]. apply negb_true_iff in H1. rewrite H1. split; auto.
+  Qed.
+
+  Lemma push_list S : forall acc S',
+    nf_after acc (S ++ S') -> fold_left (push close) S acc = acc ++ S /\ nf_after (acc ++ S) S'.
+  Proof.
+    induction S as [|u r IH]; intros acc S' H; simpl.
+    - rewrite app_nil_r. auto.
+    - simpl in H. destruct (push_nofuse acc u (r ++ S') H) as [-> H'].
+      destruct (IH (acc ++ [u]) S' H') as [-> H'']. rewrite <- app_assoc in *. auto.
+  Qed.
+
+  Lemma forall2b_refl e : forall2b close e e = true.
+  Proof. induction e; simpl; auto. rewrite close_refl, IHe. reflexivity. Qed.
+
+  Lemma push_fuse acc l e cs c :
+    push close (acc ++ [(l, e, cs)]) (l, e, [c]) = acc ++ [(l, e, cs ++ [c])].
+  Proof.
+    unfold push. rewrite rev_app_distr. simpl rev at 1. cbn [app]. unfold fuses.
+    rewrite Nat.eqb_refl, Nat.eqb_refl, forall2b_refl. simpl. rewrite rev_involutive. reflexivity.
+  Qed.
+  Lemma push_columns l e r : forall acc cs,
+    fold_left (push close) (map (fun c => (l, e, [c])) r) (acc ++ [(l, e, cs)]) = acc ++ [(l, e, cs ++ r)].
+  Proof.
+    induction r as [|c r IH]; intros acc cs; simpl.
+    - rewrite app_nil_r. reflexivity.
+    - rewrite push_fuse, IH, <- app_assoc. reflexivity.
+  Qed.
+
+  Lemma nf_after_cols acc l e cs cs' S :
+    nf_after acc ((l, e, cs) :: S) -> nf_after acc ((l, e, cs') :: S).
+  Proof.
+    unfold nf_after. destruct (rev acc) as [|[[l0 e0] c0] init]; destruct S as [|[[l1 e1] c1] S]; simpl; auto.
+  Qed.
+  Lemma nf_after_last acc l e cs cs' S :
+    nf_after (acc ++ [(l, e, cs)]) S -> nf_after (acc ++ [(l, e, cs')]) S.
+  Proof.
+    unfold nf_after. rewrite !rev_app_distr. simpl. destruct S as [|[[l1 e1] c1] S]; simpl; auto.
+  Qed.
+
+  Lemma push_block b acc S' : wfb b ->
+    nf_after acc (expected_block b ++ S') ->
+    fold_left (push close) (U b) acc = acc ++ expected_block b /\ nf_after (acc ++ expected_block b) S'.
+  Proof.
+    intros W. unfold U, expected_block, gbs_subblocks.
+    pose proof (wfb_ne b W) as Hne. pose proof (wfb_m b W) as Hm.
+    destruct (b_ls b) as [|l [|l2 r]] eqn:E; simpl in Hne; try discriminate.
+    - (* one letter: M one-column blocks, fused back *)
+      intros H. rewrite map_map. unfold units. simpl.
+      rewrite (concat_map_single (fun c : list string => ((l, b_exps b, [c]) : shell))).
+      destruct (b_cols b) as [|c0 cs]; simpl in Hm; [lia|]. simpl map. simpl fold_left.
+      simpl app in H. apply (nf_after_cols acc l (b_exps b) _ [c0]) in H.
+      destruct (push_nofuse acc _ _ H) as [-> H'].
+      rewrite push_columns. simpl. split; auto. eapply nf_after_last; eauto.
+    - (* combined block: one unit per letter, nothing fuses *)
+      intros H. simpl map. cbn [List.concat]. rewrite app_nil_r. unfold units. rewrite E.
+      apply push_list. exact H.
+  Qed.
+
+  Lemma push_blocks bs : forall acc,
+    Forall wfb bs -> nf_after acc (expected_shells bs) ->
+    fold_left (push close) (List.concat (map U bs)) acc = acc ++ expected_shells bs.
+  Proof.
+    induction bs as [|b r IH]; intros acc HW H; simpl.
+    - unfold expected_shells. simpl. rewrite app_nil_r. reflexivity.
+    - inversion HW as [|? ? Wb Wr]; subst. rewrite fold_left_app.
+      unfold expected_shells in *. simpl in *.
+      destruct (push_block b acc _ Wb H) as [-> H']. rewrite IH by auto. rewrite app_assoc. reflexivity.
+  Qed.
+
+  (* ---- every printed line of an element body / of the file satisfies P *)
+  Section LinesForall.
+    Variable P : string -> Prop.
+    Hypothesis HPf : forall s, filler_gbs s = true -> P s.
+    Hypothesis HPs : forall q lo ls p2 p3, nonempty (letters false ls) = true ->
+      forallb (fun l => l <=? 7) ls = true -> P (render q [letters lo ls; lay_tok2 L p2; lay_tok3 L p3]).
+    Hypothesis HPr : forall q row, forallb wf_lit row = true -> 2 <= List.length row -> P (render q row).
+
+    Lemma gbs_sub_Forall i j m sb : subb sb -> Forall P (print_sub_gbs L i j m sb).
+    Proof.
+      intros [W _]. unfold print_sub_gbs. apply Forall_app. split; [apply fill_gbs; auto|].
+      apply Forall_app. split.
+      - constructor; auto. apply HPs; [exact (wfb_ne sb W) | exact (wfb_l7 sb W)].
+      - apply print_rows_Forall; auto. apply block_rows_good; auto. intros q. apply fill_gbs; auto.
+    Qed.
+    Lemma gbs_body_Forall i bs : forall j, Forall wfb bs -> Forall P (mapi_from j (print_block_gbs L i) bs).
+    Proof.
+      intros j HW. apply Forall_mapi_from. intros k b Hb. rewrite Forall_forall in HW.
+      unfold print_block_gbs. apply Forall_mapi_from. intros m sb Hsb.
+      pose proof (subblocks_subb b (HW b Hb)) as Hs. rewrite Forall_forall in Hs. apply gbs_sub_Forall; auto.
+    Qed.
+  End LinesForall.
+
+  Lemma sheader_not_blank l g : sheader_gbs l = Some g -> is_blank l = false.
+  Proof. unfold sheader_gbs, is_blank. destruct (tokens l); [discriminate|reflexivity]. Qed.
+
+  Lemma existsb_mapi_from_first {A B} (p : B -> bool) (f : nat -> A -> list B) l n :
+    l <> [] -> (forall k x, In x l -> existsb p (f k x) = true) -> existsb p (mapi_from n f l) = true.
+  Proof.
+    intros Hne H. destruct l as [|a r]; [congruence|]. simpl. rewrite existsb_app, H by (left; auto). reflexivity.
+  Qed.
+
+  Lemma gbs_body_nonblank i bs j : bs <> [] -> Forall wfb bs ->
+    existsb (fun l => negb (is_blank l)) (mapi_from j (print_block_gbs L i) bs) = true.
+  Proof.
+    intros Hne HW. apply existsb_mapi_from_first; auto. intros k b Hb. rewrite Forall_forall in HW.
+    specialize (HW b Hb). unfold print_block_gbs. apply existsb_mapi_from_first.
+    - unfold gbs_subblocks. pose proof (wfb_m b HW). destruct (b_ls b) as [|l [|l2 r]]; try discriminate.
+      destruct (b_cols b); simpl in *; [lia|discriminate].
+    - intros m sb Hsb. pose proof (subblocks_subb b HW) as Hs. rewrite Forall_forall in Hs.
+      destruct (Hs sb Hsb) as [W _]. unfold print_sub_gbs. rewrite !existsb_app. simpl.
+      destruct (gbs_sheader_line (lay_pad L [i; k; m]) (lay_lower L [i; k; m]) (b_ls sb)
+                  (lay_tok2 L [i; k; m]) (lay_tok3 L [i; k; m]) (wfb_ne sb W) (wfb_l7 sb W) (tok2_ok _) (tok3_ok _))
+        as (Hh & _).
+      rewrite (sheader_not_blank _ _ Hh). simpl. rewrite orb_true_r. reflexivity.
+  Qed.
+
+  (* ---- the element split *)
+  Definition etail_ok (rest : list string) : Prop :=
+    Forall (fun l => sheader_gbs l = None) (fst (segs header_gbs false rest)) /\
+    Forall (fun l => row_of l = None) (fst (segs header_gbs false rest)).
+
+  Lemma gbs_elem i e rest d :
+    wfe e -> no_fuse close (expected_shells (snd e)) = true -> ~ In (fst e) (keys d) -> etail_ok rest ->
+    parse_gbs_from close d (print_elem_gbs L i e ++ rest)
+      = parse_gbs_from close (d ++ [(fst e, expected_shells (snd e))]) rest
+    /\ etail_ok (print_elem_gbs L i e ++ rest).
+  Proof.
+    intros (Hs & Hne & HW) Hnf Hnin [Ht1 Ht2]. unfold print_elem_gbs.
+    destruct (gbs_header_line (lay_pad L [i]) (fst e) (lay_tok2 L [i]) Hs (tok2_ok _)) as (Hb & Hh & _).
+    assert (Forall (fun l => header_gbs l = None) (mapi_from 0 (print_block_gbs L i) (snd e))) as Hnh.
+    { apply gbs_body_Forall; auto.
+      - intros s Hf. apply filler_gbs_facts in Hf. tauto.
+      - intros q lo ls p2 p3 H1 H2.
+        destruct (gbs_sheader_line q lo ls (lay_tok2 L p2) (lay_tok3 L p3) H1 H2 (tok2_ok _) (tok3_ok _)); tauto.
+      - intros. apply row_header_gbs; auto. }
+    pose proof (gbs_body_nonblank i (snd e) 0 Hne HW) as Hex.
+    unfold parse_gbs_from, etail_ok.
+    rewrite (segs_block header_gbs _ _ _ _ rest (fill_gbs_hdr [i]) Hb Hh Hnh Hex).
+    cbn [fst snd]. split; [|split; [apply fill_gbs_sh | apply fill_gbs_row]].
+    cbn [run_chunks].
+    set (final := match snd (segs header_gbs false rest) with [] => true | _ :: _ => false end).
+    destruct (chunk_units_fillers final _ Ht1 Ht2) as [Ec Tc].
+    destruct (gbs_blocks final i (snd e) 0 _ HW Tc) as [Eb _].
+    rewrite Eb, Ec. cbn [option_map]. rewrite app_nil_r.
+    rewrite dict_get_absent, dict_set_absent by auto.
+    rewrite push_blocks by auto. reflexivity.
+  Qed.
+
+  Definition wfe_gbs (e : string * list block) : Prop :=
+    wfe e /\ no_fuse close (expected_shells (snd e)) = true.
+
+  Lemma gbs_elems (a : ast) : forall i rest d,
+    Forall wfe_gbs a -> NoDup (keys d ++ map fst a) -> etail_ok rest ->
+    parse_gbs_from close d (mapi_from i (print_elem_gbs L) a ++ rest)
+      = parse_gbs_from close (d ++ expected a) rest
+    /\ etail_ok (mapi_from i (print_elem_gbs L) a ++ rest).
+  Proof.
+    induction a as [|e r IH]; intros i rest d HW Hnd Ht; simpl.
+    - rewrite app_nil_r. auto.
+    - inversion HW as [|? ? [We Wn] Wr]; subst. rewrite <- app_assoc. simpl in Hnd.
+      assert (~ In (fst e) (keys d)) as Hnin.
+      { apply NoDup_remove_2 in Hnd. intros Hin. apply Hnd. apply in_or_app. left. exact Hin. }
+      assert (NoDup (keys (d ++ [(fst e, expected_shells (snd e))]) ++ map fst r)) as Hnd'.
+      { unfold keys in *. rewrite map_app. simpl. rewrite <- app_assoc. exact Hnd. }
+      destruct (IH (S i) rest _ Wr Hnd' Ht) as [E1 T1].
+      destruct (gbs_elem i e _ d We Wn Hnin T1) as [E2 T2].
+      rewrite E2, E1, <- app_assoc. auto.
+  Qed.
+
+  Lemma gbs_post d : parse_gbs_from close d (lay_post L) = Some d /\ etail_ok (lay_post L).
+  Proof.
+    destruct HL as (_ & Hpost & _).
+    assert (Forall (fun l => header_gbs l = None) (lay_post L)) as Hh.
+    { eapply fillers_gbs_Forall; eauto. intros s Hs. apply filler_gbs_facts in Hs. tauto. }
+    assert (Forall (fun l => row_of l = None) (lay_post L)) as Hr.
+    { eapply fillers_gbs_Forall; eauto. intros s Hs. apply filler_gbs_facts in Hs. tauto. }
+    assert (Forall (fun l => sheader_gbs l = None) (lay_post L)) as Hsh.
+    { eapply fillers_gbs_Forall; eauto. intros s Hs. apply filler_gbs_facts in Hs. tauto. }
+    unfold parse_gbs_from, etail_ok. rewrite <- (app_nil_r (lay_post L)).
+    rewrite segs_nohdr_false by auto. simpl. rewrite app_nil_r. auto.
+  Qed.
+
+  Lemma gbs_in_fragment (a : ast) : Forall wfe a -> gbs_fragment (print_gbs a L) = true.
+  Proof.
+    intros HW. unfold gbs_fragment, print_gbs. destruct HL as (Hpre & Hpost & Hfill & _).
+    set (P := fun l => forall_s printable l && negb (bad_gbs_line l) = true).
+    assert (forall s, filler_gbs s = true -> P s) as HPf.
+    { intros s Hs. apply filler_gbs_facts in Hs. destruct Hs as (H1 & H2 & _). unfold P. rewrite H1, H2. reflexivity. }
+    apply forallb_forall. apply Forall_forall.
+    apply Forall_app. split; [eapply fillers_gbs_Forall; eauto|].
+    apply Forall_app. split; [|eapply fillers_gbs_Forall; eauto].
+    apply Forall_mapi_from. intros i e He. rewrite Forall_forall in HW. destruct (HW e He) as (Hs & _ & Wb).
+    unfold print_elem_gbs. apply Forall_app. split; [apply fill_gbs; auto|].
+    apply Forall_app. split.
+    - constructor; auto.
+      destruct (gbs_header_line (lay_pad L [i]) (fst e) (lay_tok2 L [i]) Hs (tok2_ok _)) as (_ & _ & H1 & H2).
+      unfold P. rewrite H1, H2. reflexivity.
+    - apply gbs_body_Forall; auto.
+      + intros q lo ls p2 p3 H1 H2.
+        destruct (gbs_sheader_line q lo ls (lay_tok2 L p2) (lay_tok3 L p3) H1 H2 (tok2_ok _) (tok3_ok _))
+          as (_ & _ & H3 & H4).
+        unfold P. rewrite H3, H4. reflexivity.
+      + intros q row H1 H2. unfold P. rewrite row_printable, row_not_bad by auto. reflexivity.
+  Qed.
+
+  Theorem roundtrip_gbs (a : ast) :
+    wf_ast_gbs close a = true -> parse_gbs_model close (print_gbs a L) = Some (expected a).
+  Proof.
+    intros Hwf. unfold wf_ast_gbs in Hwf. apply andb_true_iff in Hwf as [Hwf Hnf].
+    destruct (wf_ast_wfe a Hwf) as [HW Hnd].
+    unfold parse_gbs_model. rewrite gbs_in_fragment by auto.
+    assert (Forall wfe_gbs a) as HWg.
+    { rewrite forallb_forall in Hnf. rewrite Forall_forall in *. intros e He. split; auto. }
+    unfold print_gbs. destruct HL as (Hpre & _ & _).
+    assert (Forall (fun l => header_gbs l = None) (lay_pre L)) as Hh.
+    { eapply fillers_gbs_Forall; eauto. intros s Hs. apply filler_gbs_facts in Hs. tauto. }
+    unfold parse_gbs_from. rewrite segs_nohdr_false by auto. cbn [snd].
+    destruct (gbs_post (expected a)) as [Ep Tp].
+    destruct (gbs_elems a 0 (lay_post L) [] HWg Hnd Tp) as [E _]. unfold parse_gbs_from in E, Ep.
+    rewrite E. simpl app. exact Ep.
+  Qed.
+End GBS.
